@@ -77,7 +77,7 @@ def make(steps: int, uniform_max: bool):
                     n_del = len(delivered)
                     try:
                         r.transport.data_received_callback(raw, PEER)
-                    except Exception as exc:  # noqa: BLE001
+                    except BaseException as exc:  # noqa: BLE001
                         viols.append((f"receive-raises:{type(exc).__name__}:{label.split('(')[0]}", f"{label}: {exc!r}; events={events}"))
                         return
                     loop.settle()   # a waiting synchronize() applies an accepted timer value only when its task resumes
